@@ -518,6 +518,7 @@ STORE_WRITE_ASPECTS = {
     "C06": {"R04.4", "R06.7"},                                       # what the policy admitted is stored
     "C08": {"R02.4", "R08.2", "R09.2", "R06.7"},                     # old value comes back out, refused value handed back
     "C09": {"R09.2", "R02.4", "R02.5", "R03.5"},            # guards, outcomes, value swapped only when accepted; TTL untouched on veto
+    "C10": {"R02.5"},                                       # outcomes reported for their own cause: an insert of a resident key is applied, not re-queued as New
     "C18": {"R18.3", "R09.2", "R02.5", "R06.7"},                     # same key, conflict test before every write
 }
 
